@@ -155,7 +155,9 @@ pub fn call(req: &Value, timeout_s: u64) -> Reply {
         if need {
             *w = match Worker::spawn() {
                 Ok(x) => Some(x),
-                Err(e) => return Reply::Died { status: None, signal: None, stderr: format!("spawn failed: {e}"), stdout: String::new() },
+                // the harness could not even start a worker (e.g. its own binary was replaced while
+                // running): nothing was observed, which callers treat like a watchdog expiry (inconclusive)
+                Err(_) => return Reply::Timeout,
             };
         }
         let r = w.as_mut().unwrap().call(req, Duration::from_secs(timeout_s));
